@@ -44,7 +44,21 @@ type sleepCfg struct {
 	//                                    done = nil | live | closed, deadline = none | <ns from now, may be negative>,
 	//                                    err = nil | canceled | deadline-exceeded
 	Ctx string `json:"ctx"`
+	// Route is how the call and the per-call context reach the builtin ("" = the sleep is the whole source,
+	// evaluated directly under the context):
+	//   root-ctx    the environment was also configured with lisp.WithContext(a live context without deadline
+	//               that nobody cancels); "for per-call context control, use the *Context methods" (config.go)
+	//   closure     a closure over a let scope, created by an EARLIER load under another (live, never cancelled)
+	//               context, is called by the load under the per-call context
+	//   let-body    the sleep is a non-last body form of a let
+	//   let*-init   the sleep is the value expression of a let* binding
+	//   callback    the sleep runs inside a lambda that map calls
+	//   host-funcall the host calls a previously defined function through LEnv.FunCallContext
+	// The verdict never depends on the route: the context of the CURRENT top-level evaluation governs.
+	Route string `json:"route,omitempty"`
 }
+
+var sleepRoutes = []string{"root-ctx", "closure", "let-body", "let*-init", "callback", "host-funcall"}
 
 // ctxSpec is the decoded Ctx.
 type ctxSpec struct {
@@ -95,7 +109,7 @@ func (sp ctxSpec) interruptible() bool {
 	return sp.kind == "cancelable" || sp.kind == "deadline" || (sp.kind == "custom" && sp.done == "live")
 }
 
-func (c sleepCfg) key() string { return fmt.Sprintf("%s|%s|%d|%s", c.D, c.Max, c.Ceiling, c.Ctx) }
+func (c sleepCfg) key() string { return fmt.Sprintf("%s|%s|%d|%s|%s", c.D, c.Max, c.Ceiling, c.Ctx, c.Route) }
 
 func (c sleepCfg) shape() string {
 	m := "none"
@@ -109,7 +123,11 @@ func (c sleepCfg) shape() string {
 	if c.Ceiling > 0 {
 		ce = "set"
 	}
-	return "max=" + m + ",ceiling=" + ce + ",ctx=" + c.spec().doneKind()
+	rt := ""
+	if c.Route != "" {
+		rt = ",route=" + c.Route
+	}
+	return "max=" + m + ",ceiling=" + ce + ",ctx=" + c.spec().doneKind() + rt
 }
 
 func exactNS(s string) int64 {
@@ -305,6 +323,32 @@ func (o sleepObs) String() string {
 }
 
 func sleepSource(c sleepCfg) string {
+	call := sleepCall(c)
+	switch c.Route {
+	case "closure", "host-funcall":
+		return "(c15-f)"
+	case "let-body":
+		return "(let ([x 1]) " + call + " x)"
+	case "let*-init":
+		return "(let* ([x 1] [y " + call + "]) y)"
+	case "callback":
+		return "(car (map 'list (lambda (x) " + call + ") '(1)))"
+	}
+	return call
+}
+
+// sleepPrelude is loaded first, under another context, for the routes that call something defined earlier.
+func sleepPrelude(c sleepCfg) string {
+	switch c.Route {
+	case "closure":
+		return "(set 'c15-f (let ([x 1]) (lambda () " + sleepCall(c) + ")))"
+	case "host-funcall":
+		return "(defun c15-f () " + sleepCall(c) + ")"
+	}
+	return ""
+}
+
+func sleepCall(c sleepCfg) string {
 	src := "(time:sleep (time:parse-duration " + q(c.D) + ")"
 	switch {
 	case strings.HasPrefix(c.Max, "dur:"):
@@ -320,8 +364,20 @@ func execSleep(c sleepCfg, window time.Duration) sleepObs {
 	if c.Ceiling != 0 {
 		cfgs = append(cfgs, lisp.WithMaxSleep(time.Duration(c.Ceiling)))
 	}
+	if c.Route == "root-ctx" {
+		rootCtx, rootCancel := context.WithCancel(context.Background())
+		defer rootCancel()
+		cfgs = append(cfgs, lisp.WithContext(rootCtx))
+	}
 	env := el.MustEnv(el.Opts{Stdlib: true, Configs: cfgs})
 	src := sleepSource(c)
+	if pre := sleepPrelude(c); pre != "" {
+		preCtx, preCancel := context.WithCancel(context.Background())
+		defer preCancel()
+		if v := env.LoadStringContext(preCtx, "c15-prelude", pre); v.Type == lisp.LError {
+			panic("harness: c15 sleep prelude: " + el.ErrText(v))
+		}
+	}
 	var ctx context.Context
 	var cancel context.CancelFunc
 	switch sp := c.spec(); sp.kind {
@@ -348,7 +404,10 @@ func execSleep(c sleepCfg, window time.Duration) sleepObs {
 	start := time.Now()
 	go func() {
 		var v *lisp.LVal
-		if ctx == nil {
+		if c.Route == "host-funcall" && ctx != nil {
+			f := env.Get(lisp.Symbol("c15-f"))
+			v = env.FunCallContext(ctx, f, lisp.SExpr(nil))
+		} else if ctx == nil {
 			v = env.LoadString("c15", src)
 		} else {
 			v = env.LoadStringContext(ctx, "c15", src)
@@ -559,6 +618,18 @@ func sleepCases(thorough bool) []sleepCfg {
 			for _, ce := range ceils {
 				for _, cx := range ctxs {
 					out = append(out, sleepCfg{D: d, Max: mx, Ceiling: ce, Ctx: cx})
+				}
+				// the routes: every duration x {no :max, :max 30m} x no ceiling (thorough: also 2h) x every
+				// context that is one (with no context at all there is nothing a route could lose)
+				if (mx == "" || mx == "dur:30m") && (ce == 0 || (thorough && ce == 2*h)) {
+					for _, cx := range ctxs {
+						if cx == "background" {
+							continue
+						}
+						for _, rt := range sleepRoutes {
+							out = append(out, sleepCfg{D: d, Max: mx, Ceiling: ce, Ctx: cx, Route: rt})
+						}
+					}
 				}
 			}
 		}
